@@ -6,6 +6,7 @@ import (
 	"runtime"
 	"strings"
 	"sync"
+	"sync/atomic"
 	"time"
 
 	"github.com/herohde/morlock/pkg/engine"
@@ -23,6 +24,9 @@ type uciSession struct {
 	d    *uci.Driver
 	in   chan string
 	gate *gateEval // optional: the engine's static evaluator goes through this gate
+
+	paused atomic.Bool  // the reader stops taking lines from the driver (a GUI that is behind)
+	slowNs atomic.Int64 // the reader takes one line per this many nanoseconds (a GUI catching up slowly)
 
 	mu     sync.Mutex
 	cond   *sync.Cond
@@ -49,7 +53,17 @@ func newUCISession(rc *recipe, opts engine.Options, zseed int64, useBook bool, b
 	d, out := uci.NewDriver(ctx, s.e, s.in, dopts...)
 	s.d = d
 	go func() {
-		for l := range out {
+		for {
+			for s.paused.Load() {
+				time.Sleep(200 * time.Microsecond)
+			}
+			if d := s.slowNs.Load(); d > 0 {
+				time.Sleep(time.Duration(d))
+			}
+			l, ok := <-out
+			if !ok {
+				break
+			}
 			s.mu.Lock()
 			s.lines = append(s.lines, l)
 			s.log = append(s.log, "< "+l)
